@@ -202,14 +202,14 @@ package rules
 //@ ghost c09Fire bool
 //@ spec func polVerdict(chain string) uint32
 //@ func (*DefaultRuleRenderer).PolicyGroupToIptablesChains
-//@   property C09
+//@   property C09, C37
 //@   option safety off
 //@   option stable (*Config).MarkPass, (*Config).MarkAccept, (*types.PolicyID).Kind, (*PolicyGroup).Policies, []*types.PolicyID
 //@   requires r != nil && group != nil && !c09Ret && c09Fire && (c09Mark & (r.Config.MarkPass | r.Config.MarkAccept)) == 0
 //@   ghost at call MarkNotClear: c09Fire = (c09Mark & arg1 != 0)
 //@   ghost at call MarkClear: c09Fire = (c09Mark & arg1 == 0)
 //@   ghost at call Return: c09Ret = c09Ret || c09Fire ; c09Fire = true
-//@   ghost at call PolicyChainName: check !kindStaged(arg1.Kind)
+//@   ghost at call PolicyChainName: check !kindStaged(arg1.Kind) ; check arg2 == old(r.nft)
 //@   ghost at call Jump: check c09Ret || !c09Fire || (c09Mark & (r.Config.MarkPass | r.Config.MarkAccept)) == 0 ; c09Mark = (c09Ret || !c09Fire) ? c09Mark : (c09Mark | (polVerdict(arg1) & (r.Config.MarkPass | r.Config.MarkAccept))) ; c09Fire = true
 //@   loop 1 invariant c09Fire && (count == -1 ==> (c09Ret || (c09Mark & (r.Config.MarkPass | r.Config.MarkAccept)) == 0)) && count >= -1 && count <= rangeindex && rangeindex < len(group.Policies)
 
@@ -238,10 +238,26 @@ package rules
 //@ -- default action is not Pass - a tier holding only staged policies never changes the verdict.
 //@ ghost c09TierHas bool
 //@ func (*DefaultRuleRenderer).endpointIptablesChain
-//@   property C09
+//@   property C09, C37
 //@   option safety off
 //@   option callpre off
+//@   ghost at call PolicyChainName: check arg2 == old(r.nft)
+//@   ghost at call ProfileChainName: check arg2 == old(r.nft)
 //@   ghost at call ClearMark#6: c09TierHas = false
 //@   ghost at call HasNonStagedPolicies: c09TierHas = c09TierHas || res
 //@   ghost at call IptablesFilterDenyAction#8: check c09TierHas && tier.DefaultAction != "Pass"
 //@   loop 2 invariant c09TierHas == endOfTierDrop
+
+//@ -- ---------------------------------------------------------------- C37: one name per identity at every site
+//@ -- A policy's or profile's chain is defined and jumped to under the same name: every site derives the name
+//@ -- with the renderer's own table mode (the length limit differs between iptables and nftables).
+//@ func (*DefaultRuleRenderer).PolicyToIptablesChains
+//@   property C37
+//@   option safety off
+//@   requires r != nil && policyID != nil && policy != nil
+//@   ghost at call PolicyChainName: check arg2 == old(r.nft)
+//@ func (*DefaultRuleRenderer).ProfileToIptablesChains
+//@   property C37
+//@   option safety off
+//@   requires r != nil && profileID != nil && profile != nil
+//@   ghost at call ProfileChainName: check arg2 == old(r.nft)
